@@ -83,11 +83,11 @@ def run_harness(coll, driver, params, out, timeout=None):
         for i, ln in enumerate(lines):
             if ln.startswith('{"ev":"call"'):
                 if i == len(lines) - 1:
-                    ln = ln.replace('{"ev":"call"', '{"ev":"op"', 1).replace('"out":"aborted"', f'"out":"{status}"')
+                    ln = ln.replace('{"ev":"call"', '{"ev":"op"', 1).replace('"aborted"', f'"{status}"')
                     kept.append(ln)
             else:
                 kept.append(ln)
-        if not kept or '"out":"%s"' % status not in kept[-1]:
+        if not kept or '"%s"' % status not in kept[-1]:
             # died outside a library call (harness bug) -> tool error
             raise ToolError(f"harness died outside a library call: rc={rc2} {err2.strip()[:300]}")
         with open(out, "w") as f:
@@ -127,7 +127,7 @@ def _tlc(module, cfg, meta, env_extra, workers, java_opts, timeout, extra_args=(
 def tlc_trace(module, trace, meta, timeout=1800):
     """Validates one recorded trace.  Returns accepted flag, violations, breaches."""
     rc, out, wall = _tlc(module + ".tla", module + ".cfg", meta, {"TRACE": trace}, 1, JAVA_OPTS_TRACE, timeout)
-    viols, breaches, other = [], [], []
+    viols, breaches, other, drift = [], [], [], []
     accepted = None
     for ln in out.splitlines():
         if ln.startswith('"VIOL '):
@@ -138,6 +138,8 @@ def tlc_trace(module, trace, meta, timeout=1800):
             body = json.loads(ln)[7:]
             l, info = json.loads(body)
             breaches.append({"l": l, "info": info})
+        elif ln.startswith('"DRIFT '):
+            drift.append(json.loads(json.loads(ln)[6:]))
         elif ln.startswith('<<"ACCEPTED"'):
             accepted = True
         elif ln.startswith('<<"REJECTED"'):
@@ -147,7 +149,7 @@ def tlc_trace(module, trace, meta, timeout=1800):
             other.append(ln)
     if accepted is None or rc != 0 and accepted is not False:
         raise ToolError(f"TLC failed on trace {trace} ({module}), rc={rc}:\n" + "\n".join(other[:25]))
-    return {"accepted": accepted, "viols": viols, "breaches": breaches, "wall": wall, "other": other}
+    return {"accepted": accepted, "viols": viols, "breaches": breaches, "wall": wall, "other": other, "drift": drift}
 
 
 def tlc_model(module, cfg, meta, workers=8, timeout=3600, extra_args=(), want_output=False):
